@@ -25,6 +25,7 @@ func NewMiniCluster() *klient.Client {
 		{Version: "v1", Resource: "secrets"}:                      "SecretList",
 		{Group: "apps", Version: "v1", Resource: "deployments"}:   "DeploymentList",
 		{Group: "stable.example.com", Version: "v1", Resource: "crontabs"}: "CronTabList",
+		{Group: "apiextensions.k8s.io", Version: "v1", Resource: "customresourcedefinitions"}: "CustomResourceDefinitionList",
 	}
 	c := klient.NewFake(gvrs)
 	// The fake object tracker ignores field selectors; the operator relies on
@@ -79,6 +80,9 @@ func NewMiniCluster() *klient.Client {
 		}},
 		{GroupVersion: "apps/v1", APIResources: []metav1.APIResource{
 			{Kind: "Deployment", Name: "deployments", Verbs: verbs, Group: "apps", Version: "v1", Namespaced: true},
+		}},
+		{GroupVersion: "apiextensions.k8s.io/v1", APIResources: []metav1.APIResource{
+			{Kind: "CustomResourceDefinition", Name: "customresourcedefinitions", Verbs: verbs, Group: "apiextensions.k8s.io", Version: "v1", Namespaced: false},
 		}},
 		{GroupVersion: "stable.example.com/v1", APIResources: []metav1.APIResource{
 			{Kind: "CronTab", Name: "crontabs", Verbs: verbs, Group: "stable.example.com", Version: "v1", Namespaced: true},
